@@ -601,3 +601,305 @@ Proof.
     + apply existsb_lz_In in E. apply Hkeys in E. destruct (mdget_In _ _ E) as [v Hv]. rewrite Hv. reflexivity.
     + symmetry. apply mdget_notIn. intros Hi'. apply Hkeys in Hi'. apply existsb_lz_In in Hi'. congruence.
 Qed.
+
+(* ------------------------------------------------------------------ C01: the round trip *)
+Lemma text_opt_text o dflt : opt_ok o -> text dflt -> text (opt_text o dflt).
+Proof. destruct o as [[|c s]|]; cbn [opt_ok opt_text]; intros H T; try exact T. destruct H as [_ H]. exact H. Qed.
+
+Lemma opt_text_some o dflt : opt_ok o -> opt_text o dflt = match o with Some s => s | None => dflt end.
+Proof. destruct o as [[|c s]|]; cbn [opt_ok opt_text]; intros H; try reflexivity. destruct H as [H _]. congruence. Qed.
+
+Lemma text_placeholder : text s_no_table_id.
+Proof. apply textb_text. reflexivity. Qed.
+Lemma text_nil : text [].
+Proof. constructor. Qed.
+
+Lemma to_hdf5_ok st genby date : meta_ok st ->
+  to_hdf5 st genby date = ROk (assemble st genby date (md_written (st_omd st)) (gmd_written (st_ogmd st))
+                                        (md_written (st_smd st)) (gmd_written (st_sgmd st))).
+Proof.
+  intros (M1 & M2 & G1 & G2 & _). unfold to_hdf5.
+  rewrite (format_md_ok _ _ M1), (format_gmd_ok _ G1), (format_md_ok _ _ M2), (format_gmd_ok _ G2). reflexivity.
+Qed.
+
+(* what the reader returns for a written file *)
+Definition reloaded (st : state) (genby date : str) : loaded :=
+  mkLd (st_oids st) (st_sids st) (st_mat st) (md_loaded (st_omd st)) (md_loaded (st_smd st))
+       (st_type st) (match st_id st with Some s => s | None => s_no_table_id end) genby date
+       (map (fun e => (fst e, snd (snd e))) (st_ogmd st)) (map (fun e => (fst e, snd (snd e))) (st_sgmd st)).
+
+Theorem from_hdf5_written st genby date ax : wf_state st -> meta_ok st -> text genby -> text date ->
+  from_hdf5 (assemble st genby date (md_written (st_omd st)) (gmd_written (st_ogmd st))
+                      (md_written (st_smd st)) (gmd_written (st_sgmd st))) ax
+  = ROk (reloaded st genby date).
+Proof.
+  intros (W & Lo & Ls & No & Ns & To & Ts) (M1 & M2 & G1 & G2 & Oty & Oid) Tg Td.
+  destruct (writer_matrices st W) as ((O1 & O2 & O3 & O4 & O5 & O6) & (S1 & S2 & S3 & S4 & S5 & S6 & _) & _).
+  destruct (st_mat_shape st W) as [ML MR].
+  unfold from_hdf5, attr_text, need_dset.
+  rewrite w_attr_id, w_attr_date, w_attr_genby, w_attr_shape, w_attr_type.
+  rewrite (dec_enc _ (text_opt_text _ _ Oid text_placeholder)). cbn [bind].
+  rewrite (dec_enc _ Td). cbn [bind]. rewrite (dec_enc _ Tg). cbn [bind].
+  rewrite (dec_enc _ (text_opt_text _ _ Oty text_nil)). cbn [bind].
+  rewrite (axis_load_ok _ b_observation (st_oids st) (st_omd st) (st_ogmd st)); try assumption;
+    [|apply w_get_obs_ids|reflexivity|reflexivity|apply w_children_omd|apply w_children_ogmd].
+  rewrite (axis_load_ok _ b_sample (st_sids st) (st_smd st) (st_sgmd st)); try assumption;
+    [|apply w_get_samp_ids|reflexivity|reflexivity|apply w_children_smd|apply w_children_sgmd].
+  cbn [bind]. rewrite !Nat2Z.id.
+  assert (Fin : negb (Nat.eqb (length (st_oids st)) (st_nobs st)) || negb (Nat.eqb (length (st_sids st)) (st_nsamp st))
+                || sdup (st_oids st) || sdup (st_sids st) = false).
+  { rewrite Lo, Ls, !Nat.eqb_refl, (sdup_NoDup _ No), (sdup_NoDup _ Ns). reflexivity. }
+  assert (Ty : match opt_text (st_type st) [] with [] => None | _ => Some (opt_text (st_type st) []) end = st_type st).
+  { destruct (st_type st) as [[|c s]|]; cbn [opt_text opt_ok] in *; try reflexivity. destruct Oty as [H _]. congruence. }
+  destruct ax; cbn [axis_name].
+  - rewrite w_get_obs_data, w_get_obs_indices, w_get_obs_indptr. cbn [bind d_num]. rewrite Fin, Ty, !ns_zs.
+    replace (mkCS (st_nobs st) (st_nsamp st) (indptr (w_obs st)) (indices (w_obs st)) (data (w_obs st)))
+      with (w_obs st) by (rewrite <- O2, <- O3; symmetry; apply cs_eta).
+    rewrite O4, (opt_text_some _ _ Oid). reflexivity.
+  - rewrite w_get_samp_data, w_get_samp_indices, w_get_samp_indptr. cbn [bind d_num]. rewrite Fin, Ty, !ns_zs.
+    replace (mkCS (st_nsamp st) (st_nobs st) (indptr (w_samp st)) (indices (w_samp st)) (data (w_samp st)))
+      with (w_samp st) by (rewrite <- S2, <- S3; symmetry; apply cs_eta).
+    rewrite S4, (opt_text_some _ _ Oid). rewrite <- ML at 1. rewrite (transpose_involutive _ _ MR). reflexivity.
+Qed.
+
+Theorem hdf5_roundtrip st genby date ax : wf_state st -> meta_ok st -> text genby -> text date ->
+  exists f ld,
+    to_hdf5 st genby date = ROk f /\ from_hdf5 f ax = ROk ld
+    /\ l_oids ld = st_oids st /\ l_sids ld = st_sids st
+    /\ l_mat ld = st_mat st
+    /\ md_agree (l_omd ld) (md_norm (st_omd st)) /\ md_agree (l_smd ld) (md_norm (st_smd st))
+    /\ l_type ld = st_type st
+    /\ l_id ld = match st_id st with Some s => s | None => s_no_table_id end
+    /\ l_genby ld = genby /\ l_date ld = date
+    /\ l_ogmd ld = map (fun e => (fst e, snd (snd e))) (st_ogmd st)
+    /\ l_sgmd ld = map (fun e => (fst e, snd (snd e))) (st_sgmd st).
+Proof.
+  intros W M Tg Td. eexists. exists (reloaded st genby date).
+  split; [apply to_hdf5_ok; exact M|]. split; [apply from_hdf5_written; assumption|].
+  destruct M as (M1 & M2 & _). cbn [reloaded l_oids l_sids l_mat l_omd l_smd l_type l_id l_genby l_date l_ogmd l_sgmd].
+  repeat split; try reflexivity; eapply md_loaded_agree; eassumption.
+Qed.
+
+(* ------------------------------------------------------------------ C04: conformance *)
+Definition type_in_vocab (st : state) : Prop :=
+  match st_type st with None => True | Some s => In s vocabulary end.
+
+Lemma sanitize_no_slash k : ~ In 47%Z k -> sanitize k = k.
+Proof.
+  induction k as [|c t IH]; intros H; [reflexivity|]. rewrite sanitize_cons.
+  destruct (Z.eqb_spec 47 c) as [E|E]; [exfalso; apply H; left; symmetry; exact E|].
+  cbn [app]. f_equal. apply IH. intros Hi. apply H. right. exact Hi.
+Qed.
+
+Lemma sanitize_has_at k : In 47%Z k -> In 64%Z (sanitize k).
+Proof.
+  induction k as [|c t IH]; intros H; [contradiction|]. rewrite sanitize_cons. apply in_or_app.
+  destruct (Z.eqb_spec 47 c) as [E|E]; [left; left; reflexivity|].
+  right. apply IH. destruct H as [H|H]; [congruence|exact H].
+Qed.
+
+Lemma reserved_no_at k : reserved k = true -> ~ In 64%Z k.
+Proof.
+  intros R. destruct (reserved_cases k R) as [-> | [-> | [-> | ->]]]; vm_compute; intuition discriminate.
+Qed.
+
+Lemma reserved_catname k : reserved (catname k) = reserved k.
+Proof.
+  unfold catname. destruct (reserved k) eqn:R; [exact R|].
+  destruct (reserved (sanitize k)) eqn:R2; [|reflexivity].
+  destruct (In_dec Z.eq_dec 47%Z k) as [Hs|Hs].
+  - exfalso. exact (reserved_no_at _ R2 (sanitize_has_at k Hs)).
+  - rewrite (sanitize_no_slash k Hs) in R2. congruence.
+Qed.
+
+Lemma cat_dset_shape k col : exists rest, d_shape (cat_dset k col) = length col :: rest.
+Proof.
+  unfold cat_dset. destruct (reserved k); [eexists; cbn [dstr2 d_shape]; rewrite map_length; reflexivity|].
+  destruct (forallb is_str col); [|destruct (forallb is_int col); [|destruct (forallb is_float col)]];
+    eexists; cbn [dstr1 dnum d_shape]; rewrite map_length; reflexivity.
+Qed.
+
+Lemma md_written_ok md n : md_homogeneous md n ->
+  Forall (fun nd => match d_shape (snd nd) with n' :: _ => n' = n | [] => False end
+                    /\ (forall s, utf8_decode (fst nd) = Some s -> reserved s = true ->
+                                  d_kind (snd nd) = KVStr /\ exists w, d_shape (snd nd) = [n; w]))
+         (md_written md).
+Proof.
+  destruct md as [[|r0 rest]|]; try (intros; constructor).
+  intros (Hlen & _ & _ & Hcat & _ & _). cbn [md_written md_dsets]. apply Forall_forall. intros nd Hnd.
+  apply in_map_iff in Hnd. destruct Hnd as [k [<- Hk]]. cbn [fst snd]. split.
+  - destruct (cat_dset_shape k (column (r0 :: rest) k)) as [tl E]. rewrite E, column_length. exact Hlen.
+  - intros s Hs R. rewrite Forall_forall in Hcat. rewrite utf8_roundtrip in Hs by (apply text_catname; apply Hcat; exact Hk).
+    inversion Hs; subst s. rewrite reserved_catname in R. unfold cat_dset. rewrite R.
+    cbn [dstr2 d_kind d_shape]. split; [reflexivity|]. eexists. rewrite map_length, column_length, Hlen. reflexivity.
+Qed.
+
+Lemma gmd_written_ok g :
+  Forall (fun nd => d_kind (snd nd) = KVStr /\ length (d_str (snd nd)) = 1
+                    /\ exists t, In (b_data_type, t) (d_attrs (snd nd))) (gmd_written g).
+Proof.
+  apply Forall_forall. intros nd Hnd. apply in_map_iff in Hnd. destruct Hnd as [e [<- _]]. cbn [snd d_kind d_str d_attrs].
+  repeat split. eexists. left. reflexivity.
+Qed.
+
+Lemma ids_written_ok (ids : list str) :
+  exists d, Some (match ids with [] => dnum KF64 [] | _ => dstr1 (map utf8_encode ids) end) = Some d
+            /\ d_shape d = [length ids]
+            /\ (length ids > 0 -> d_kind d = KVStr /\ length (d_str d) = length ids)
+            /\ (length ids > 0 -> d_str d = map utf8_encode ids).
+Proof.
+  destruct ids as [|i t]; eexists; (split; [reflexivity|]).
+  - split; [reflexivity|]. split; intros H; cbn [length] in H; lia.
+  - cbn [dstr1 d_shape d_kind d_str]. rewrite map_length. repeat split; reflexivity.
+Qed.
+
+Theorem conforms_written st genby date : wf_state st -> meta_ok st -> type_in_vocab st ->
+  conforms (assemble st genby date (md_written (st_omd st)) (gmd_written (st_ogmd st))
+                     (md_written (st_smd st)) (gmd_written (st_sgmd st))).
+Proof.
+  intros (W & Lo & Ls & _) (M1 & M2 & G1 & G2 & Oty & _) Tv.
+  destruct (writer_matrices st W) as ((O1 & O2 & O3 & O4 & O5 & O6) & (S1 & S2 & S3 & S4 & S5 & S6 & _) & _).
+  exists (st_nobs st), (st_nsamp st), (w_nnz st).
+  split; [eexists; apply w_attr_id|]. split.
+  { eexists. split; [apply w_attr_type|]. unfold type_in_vocab in Tv.
+    destruct (st_type st) as [[|c s]|]; cbn [opt_text]; try (left; reflexivity).
+    right. apply in_map. exact Tv. }
+  split; [eexists; apply w_attr_url|]. split; [apply w_attr_version|].
+  split; [eexists; apply w_attr_genby|]. split; [eexists; apply w_attr_date|].
+  split; [apply w_attr_shape|]. split; [apply w_attr_nnz|]. split; [apply w_groups|].
+  split.
+  { unfold ids_ok. rewrite w_get_obs_ids. destruct (ids_written_ok (st_oids st)) as [d (E & A & B & _)].
+    exists d. rewrite <- Lo. split; [exact E|split; [exact A|exact B]]. }
+  split.
+  { unfold ids_ok. rewrite w_get_samp_ids. destruct (ids_written_ok (st_sids st)) as [d (E & A & B & _)].
+    exists d. rewrite <- Ls. split; [exact E|split; [exact A|exact B]]. }
+  destruct O1 as (P1 & _ & _ & _ & P5 & _). destruct S1 as (Q1 & _ & _ & _ & Q5 & _).
+  unfold dset_is.
+  split; [rewrite w_get_obs_data; eexists; repeat split; cbn [dkind_eqb d_num]; exact O6|].
+  split; [rewrite w_get_obs_indices; eexists; repeat split; cbn [dkind_eqb d_num]; unfold zs; rewrite map_length, P5; exact O6|].
+  split; [rewrite w_get_obs_indptr; eexists; repeat split; cbn [dkind_eqb d_num d_shape]; unfold zs; rewrite ?map_length, P1, O2; reflexivity|].
+  split; [rewrite w_get_samp_data; eexists; repeat split; cbn [dkind_eqb d_num]; exact S6|].
+  split; [rewrite w_get_samp_indices; eexists; repeat split; cbn [dkind_eqb d_num]; unfold zs; rewrite map_length, Q5; exact S6|].
+  split; [rewrite w_get_samp_indptr; eexists; repeat split; cbn [dkind_eqb d_num d_shape]; unfold zs; rewrite ?map_length, Q1, S2; reflexivity|].
+  split; [unfold md_ok_h5; rewrite w_children_omd, <- Lo; apply md_written_ok; exact M1|].
+  split; [unfold md_ok_h5; rewrite w_children_smd, <- Ls; apply md_written_ok; exact M2|].
+  split; [unfold gmd_ok_h5; rewrite w_children_ogmd; apply gmd_written_ok|].
+  unfold gmd_ok_h5. rewrite w_children_sgmd. apply gmd_written_ok.
+Qed.
+
+(* what the specification decoder's acceptance means *)
+Theorem spec_decoder_checks f a mj mn r : spec_arrays f a mj mn = Some r ->
+  wf_csb r = true /\ no_stored_zerob r = true /\ major r = mj /\ minor r = mn
+  /\ get_attr (attrs f) b_nnz = Some (AInt (Z.of_nat (length (data r)))).
+Proof.
+  unfold spec_arrays. destruct (get_dset (dsets f) [a; b_matrix; b_data]) as [dd|]; [|discriminate].
+  destruct (get_dset (dsets f) [a; b_matrix; b_indices]) as [di|]; [|discriminate].
+  destruct (get_dset (dsets f) [a; b_matrix; b_indptr]) as [dp|]; [|discriminate].
+  destruct (get_attr (attrs f) b_nnz) as [[b|z|l]|]; try discriminate.
+  destruct (_ && _) eqn:E; [|discriminate]. intros H. inversion H; subst r. clear H.
+  repeat (apply andb_true_iff in E; destruct E as [E ?]).
+  cbn [major minor data]. repeat split; try assumption.
+  match goal with H : Z.eqb _ _ = true |- _ => apply Z.eqb_eq in H; cbn [data] in H; rewrite H end. reflexivity.
+Qed.
+
+Theorem hdf5_conforms st genby date : wf_state st -> meta_ok st -> type_in_vocab st ->
+  exists f,
+    to_hdf5 st genby date = ROk f /\ conforms f
+    /\ get_attr (attrs f) b_shape = Some (AInts [Z.of_nat (length (st_oids st)); Z.of_nat (length (st_sids st))])
+    /\ length (st_mat st) = length (st_oids st) /\ rect (length (st_sids st)) (st_mat st)
+    /\ get_attr (attrs f) b_nnz = Some (AInt (Z.of_nat (count_nonzero (st_mat st))))
+    /\ spec_decode_csr f = Some (st_mat st) /\ spec_decode_csc f = Some (st_mat st)
+    /\ (st_oids st <> [] -> exists d, get_dset (dsets f) [b_observation; b_ids] = Some d /\ d_str d = map utf8_encode (st_oids st))
+    /\ (st_sids st <> [] -> exists d, get_dset (dsets f) [b_sample; b_ids] = Some d /\ d_str d = map utf8_encode (st_sids st)).
+Proof.
+  intros Wf M Tv. pose proof Wf as (W & Lo & Ls & _).
+  destruct (writer_matrices st W) as (_ & _ & Nz). destruct (st_mat_shape st W) as [ML MR].
+  destruct (spec_decode_written st genby date (md_written (st_omd st)) (gmd_written (st_ogmd st))
+                                (md_written (st_smd st)) (gmd_written (st_sgmd st)) W) as [D1 D2].
+  eexists. split; [apply to_hdf5_ok; exact M|]. split; [apply conforms_written; assumption|].
+  split; [rewrite Lo, Ls; apply w_attr_shape|]. split; [congruence|]. split; [rewrite Ls; exact MR|].
+  split; [rewrite <- Nz; apply w_attr_nnz|]. split; [exact D1|]. split; [exact D2|]. split.
+  - intros Hne. rewrite w_get_obs_ids. destruct (st_oids st); [congruence|]. eexists. split; reflexivity.
+  - intros Hne. rewrite w_get_samp_ids. destruct (st_sids st); [congruence|]. eexists. split; reflexivity.
+Qed.
+
+(* ------------------------------------------------------------------ non-vacuity: the standard witness *)
+(* a 3 x 4 table held as CSR with an all-zero row (the second), unsorted column indices and one
+   explicitly stored zero; non-ASCII id, an id with a slash; taxonomy lists of unequal length and a
+   category whose name contains a slash; type from the vocabulary; one group-metadata entry *)
+Definition demo_cs : cs := mkCS 3 4 [0; 2; 2; 5] [2; 0; 3; 1; 0] [1; 0; 3; 4; 5]%Z.
+Definition demo_st : state :=
+  mkSt [[111; 49]; [233; 50]; [99; 47; 100]]%Z [[115; 49]; [115; 50]; [115; 51]; [115; 52]]%Z
+       CSR demo_cs
+       (Some [ [(s_taxonomy, MList [[107]; [112]]); ([120; 47; 121], MStr [117])];
+               [([120; 47; 121], MStr [118]); (s_taxonomy, MList [[107]])];
+               [(s_taxonomy, MList [[97]; [98]; [99]]); ([120; 47; 121], MStr [119; 233])] ])%Z
+       None
+       (Some (nth 0 vocabulary [])) None
+       [([116], ([110], [40; 97; 44; 98; 41; 59]))]%Z [].
+
+Lemma sdup_sound l : sdup l = false -> NoDup l.
+Proof.
+  induction l as [|x t IH]; intros H; [constructor|]. cbn [sdup] in H. apply orb_false_iff in H. destruct H as [H1 H2].
+  constructor; [|apply IH; exact H2]. intros Hi. apply existsb_lz_In in Hi. congruence.
+Qed.
+
+Lemma Forall_textb l : forallb textb l = true -> Forall text l.
+Proof.
+  intros H. apply Forall_forall. intros s Hs. rewrite forallb_forall in H. apply textb_text. apply H. exact Hs.
+Qed.
+
+Lemma demo_wf : wf_state demo_st.
+Proof.
+  unfold wf_state. split; [apply wf_csb_wf_cs; reflexivity|]. split; [reflexivity|]. split; [reflexivity|].
+  split; [apply sdup_sound; reflexivity|]. split; [apply sdup_sound; reflexivity|].
+  split; apply Forall_textb; reflexivity.
+Qed.
+
+Lemma demo_layout : sorted_csb demo_cs = false /\ no_stored_zerob demo_cs = false
+                    /\ nth 1 (st_mat demo_st) [] = [0; 0; 0; 0]%Z.
+Proof. repeat split. Qed.
+
+Lemma demo_meta : meta_ok demo_st /\ type_in_vocab demo_st.
+Proof.
+  assert (T : forall s, textb s = true -> text s) by (intros s; apply textb_text).
+  assert (TL : forall l, forallb (fun s => negb (lz_eqb s []) && textb s) l = true -> Forall (fun s => s <> [] /\ text s) l).
+  { intros l H. apply Forall_forall. intros s Hs. rewrite forallb_forall in H. specialize (H s Hs).
+    apply andb_true_iff in H. destruct H as [H1 H2]. split; [|apply T; exact H2].
+    intros ->. discriminate. }
+  split; [|left; reflexivity]. unfold meta_ok. split; [|split; [exact I|split; [|split; [|split; [|exact I]]]]].
+  - cbn [demo_st st_omd st_oids md_homogeneous length]. split; [reflexivity|]. split; [discriminate|].
+    split; [apply sdup_sound; reflexivity|]. split.
+    { constructor; [split; [apply T; reflexivity|reflexivity]|]. constructor; [split; [apply T; reflexivity|reflexivity]|constructor]. }
+    split.
+    { constructor; [split; [apply sdup_sound; reflexivity|reflexivity]|].
+      constructor; [split; [apply sdup_sound; reflexivity|reflexivity]|constructor]. }
+    constructor; [|constructor; [|constructor]].
+    + unfold column_ok. replace (reserved s_taxonomy) with true by reflexivity. cbn [column map mdget].
+      constructor; [split; [discriminate|apply TL; reflexivity]|].
+      constructor; [split; [discriminate|apply TL; reflexivity]|].
+      constructor; [split; [discriminate|apply TL; reflexivity]|constructor].
+    + unfold column_ok. replace (reserved [120; 47; 121]%Z) with false by reflexivity. left.
+      constructor; [apply T; reflexivity|]. constructor; [apply T; reflexivity|]. constructor; [apply T; reflexivity|constructor].
+  - split; [apply sdup_sound; reflexivity|]. constructor; [|constructor].
+    split; [apply T; reflexivity|]. split; [reflexivity|]. split; apply T; reflexivity.
+  - split; [constructor|constructor].
+  - split; [discriminate|apply T; reflexivity].
+Qed.
+
+(* a decision procedure for wf_state (sound), to discharge concrete instances *)
+Definition wf_stateb (st : state) : bool :=
+  wf_csb (st_cs st) && Nat.eqb (length (st_oids st)) (st_nobs st) && Nat.eqb (length (st_sids st)) (st_nsamp st)
+  && negb (sdup (st_oids st)) && negb (sdup (st_sids st)) && forallb textb (st_oids st) && forallb textb (st_sids st).
+
+Lemma wf_stateb_sound st : wf_stateb st = true -> wf_state st.
+Proof.
+  unfold wf_stateb, wf_state. intros H. do 6 (apply andb_true_iff in H; destruct H as [H ?]).
+  repeat match goal with
+         | X : Nat.eqb _ _ = true |- _ => apply Nat.eqb_eq in X
+         | X : negb _ = true |- _ => apply negb_true_iff in X
+         end.
+  split; [apply wf_csb_wf_cs; assumption|]. split; [assumption|]. split; [assumption|].
+  split; [apply sdup_sound; assumption|]. split; [apply sdup_sound; assumption|].
+  split; apply Forall_textb; assumption.
+Qed.
